@@ -224,6 +224,15 @@ type globCase struct {
 	Expect string `json:"expect"`
 }
 
+func hasLiteral(xs []int) bool {
+	for _, x := range xs {
+		if x != '*' && x != '\\' {
+			return true
+		}
+	}
+	return false
+}
+
 func hasMeta(xs []int) bool {
 	for _, x := range xs {
 		if x == '*' || x == '\\' {
@@ -235,6 +244,7 @@ func hasMeta(xs []int) bool {
 
 func init() {
 	replays["glob"] = func(cases []json.RawMessage, rep *Report) error {
+		amplified := 0
 		for _, raw := range cases {
 			var c globCase
 			if err := json.Unmarshal(raw, &c); err != nil {
@@ -264,6 +274,21 @@ func init() {
 					rep.violation(c, c.Expect, err4.Error(), fmt.Sprintf("policy.Like(%q) written out and read back (codec %d)", pat, codec))
 				} else if a4 != c.Expect && a4 != "skip" {
 					rep.violation(c, c.Expect, a4, fmt.Sprintf("policy.Like(%q) written out (ToIPLD, codec %d), read back, on %q", pat, codec, str))
+				}
+			}
+			// StarAbsorbs, far beyond the bounds: a star in front absorbs 70 000 bytes of near misses of the literal that follows it
+			// (the string without its last byte, over and over), a star behind absorbs them after the string
+			if c.Expect == "true" && len(str) >= 2 && amplified < 24 && hasLiteral(c.Pat) {
+				amplified++
+				filler := strings.Repeat(str[:len(str)-1], 70000/(len(str)-1)+1)
+				for _, v := range []struct{ p, s, what string }{{"*" + pat, filler + str, "in front"}, {pat + "*", str + filler, "behind"}} {
+					rep.Evaluations++
+					got, err := likeViaConstructor(v.p, v.s)
+					if err != nil || got != "true" {
+						rep.violation(map[string]any{"pat": intsOf(v.p), "str_bytes": len(v.s), "base": c}, "true", fmt.Sprint(got, " ", err),
+							fmt.Sprintf("policy.Like(%q) on %q preceded / followed by %d bytes of near misses (a star %s absorbs anything)", v.p, str, len(filler), v.what))
+						break
+					}
 				}
 			}
 			// the same pattern under every constructor that can wrap a like: an invalid pattern is refused wherever it
